@@ -19,13 +19,13 @@ Qed.
 
 (* a batch hands the wallet over only when its range reaches the handler's tip, and only by a
    batch that committed *)
-Lemma batch_ready_only_at_tip : forall p B n st w k st' o,
+Lemma batch_ready_only_at_tip : forall fx p B n st w k st' o,
   status_of st w = Some (WImporting k) ->
-  import_batch p B n st w = (st', o) ->
+  import_batch fx p B n st w = (st', o) ->
   status_of st' w = Some WReady ->
   o = IOk /\ fst (tip (x_w st)) <= k + B.
 Proof.
-  intros p B n st w k st' o Hs H Hr. unfold import_batch in H. rewrite Hs in H.
+  intros fx p B n st w k st' o Hs H Hr. unfold import_batch in H. rewrite Hs in H.
   destruct (memN w (x_dead st)).
   - inversion H. subst. rewrite Hs in Hr. discriminate.
   - destruct (import_blocks p (own_w st w) n k (Z.min (k + B) (fst (tip (x_w st)))) (credits (x_w st), x_brecs st) n)
@@ -34,21 +34,21 @@ Proof.
       rewrite lookupN_setN_same in Hr.
       destruct (Z.min (k + B) (fst (tip (x_w st))) =? fst (tip (x_w st))) eqn:E; [|discriminate].
       apply Z.eqb_eq in E. split; [reflexivity|lia].
-    + destruct e; inversion H; subst; unfold status_of, with_dead in Hr; cbn [x_status] in Hr;
+    + destruct e; [| |destruct (f_import_retry fx)]; inversion H; subst; unfold status_of, with_dead in Hr; cbn [x_status] in Hr;
         unfold status_of in Hs; rewrite Hs in Hr; discriminate.
 Qed.
 
 (* a batch that does not commit changes nothing the wallet reports *)
-Lemma batch_failed_keeps_ledger : forall p B n st w st' o,
-  import_batch p B n st w = (st', o) -> o <> IOk ->
+Lemma batch_failed_keeps_ledger : forall fx p B n st w st' o,
+  import_batch fx p B n st w = (st', o) -> o <> IOk ->
   x_w st' = x_w st /\ x_status st' = x_status st /\ x_brecs st' = x_brecs st.
 Proof.
-  intros p B n st w st' o H Ho. unfold import_batch in H.
+  intros fx p B n st w st' o H Ho. unfold import_batch in H.
   destruct (status_of st w) as [[|k|]|]; try (inversion H; subst; repeat split; reflexivity).
   destruct (memN w (x_dead st)); [inversion H; subst; repeat split; reflexivity|].
   destruct (import_blocks _ _ _ _ _ _ _) as [[cs brs]|e].
   - inversion H. subst. congruence.
-  - destruct e; inversion H; subst; repeat split; reflexivity.
+  - destruct e; [| |destruct (f_import_retry fx)]; inversion H; subst; repeat split; reflexivity.
 Qed.
 
 (* disconnectBlock pulls the rescan cursor back below the disconnected height *)
@@ -406,15 +406,15 @@ Proof.
   intros c a b Hab. rewrite app_assoc. rewrite (firstn_firstn_skipn c a b Hab). symmetry. apply firstn_skipn.
 Qed.
 
-Theorem import_batch_step : forall p B c w own k st,
+Theorem import_batch_step : forall fx p B c w own k st,
   wf_chain c -> 0 < B -> importing p c w own k st ->
   let stop := Z.min (k + B) (chain_height c) in
   exists st',
-    import_batch p B c st w = (st', IOk) /\
+    import_batch fx p B c st w = (st', IOk) /\
     credits (x_w st') = E p own (ptxs (upto stop c)) /\ synced (x_w st') = synced_of c /\
     (if stop =? chain_height c then status_of st' w = Some WReady else importing p c w own stop st').
 Proof.
-  intros p B c w own k st Hwf HB [Hcr Hsy Hbr Hst Hrg Hal Hown] stop.
+  intros fx p B c w own k st Hwf HB [Hcr Hsy Hbr Hst Hrg Hal Hown] stop.
   destruct (wf_linked _ Hwf) as [pv Hl].
   assert (Htip : fst (tip (x_w st)) = chain_height c).
   { destruct (x_w st) as [cs sy] eqn:Hxw. cbn [synced] in Hsy. subst sy. apply (tip_of_synced c cs Hwf). }
@@ -467,14 +467,14 @@ Qed.
 
 (* ---------------------------------------------------------------- all batches *)
 
-Fixpoint batches (p : params) (B : Z) (n : node) (st : xstate) (w : N) (m : nat) : xstate :=
+Fixpoint batches (fx : fixes) (p : params) (B : Z) (n : node) (st : xstate) (w : N) (m : nat) : xstate :=
   match m with
   | O => st
-  | S m' => batches p B n (fst (import_batch p B n st w)) w m'
+  | S m' => batches fx p B n (fst (import_batch fx p B n st w)) w m'
   end.
 
-Lemma batch_noop_when_ready : forall p B n st w, status_of st w = Some WReady -> import_batch p B n st w = (st, IOk).
-Proof. intros p B n st w H. unfold import_batch. rewrite H. reflexivity. Qed.
+Lemma batch_noop_when_ready : forall fx p B n st w, status_of st w = Some WReady -> import_batch fx p B n st w = (st, IOk).
+Proof. intros fx p B n st w H. unfold import_batch. rewrite H. reflexivity. Qed.
 
 Lemma upto_all : forall c, upto (chain_height c) c = c.
 Proof.
@@ -486,16 +486,16 @@ Qed.
 Definition imported (p : params) (c : list block) (w : N) (own : owner_fn) (st : xstate) : Prop :=
   status_of st w = Some WReady /\ x_w st = L p own c.
 
-Theorem import_batches : forall p B c w own, wf_chain c -> 0 < B ->
+Theorem import_batches : forall fx p B c w own, wf_chain c -> 0 < B ->
   forall m st, (importing p c w own (Z.of_nat m * B) st /\ Z.of_nat m * B <= chain_height c) \/ imported p c w own st ->
-  forall j, let st' := batches p B c st w j in
+  forall j, let st' := batches fx p B c st w j in
     (importing p c w own (Z.of_nat (m + j) * B) st' /\ Z.of_nat (m + j) * B <= chain_height c) \/ imported p c w own st'.
 Proof.
-  intros p B c w own Hwf HB m st H j. revert m st H. induction j as [|j IH]; intros m st H.
+  intros fx p B c w own Hwf HB m st H j. revert m st H. induction j as [|j IH]; intros m st H.
   - cbn [batches]. rewrite Nat.add_0_r. exact H.
   - cbn [batches]. replace (m + S j)%nat with (S m + j)%nat by lia. apply IH.
     destruct H as [[Him Hle]|[Hr Hx]].
-    + destruct (import_batch_step p B c w own (Z.of_nat m * B) st Hwf HB Him) as [st1 [Hb [Hcr [Hsy Hcase]]]].
+    + destruct (import_batch_step fx p B c w own (Z.of_nat m * B) st Hwf HB Him) as [st1 [Hb [Hcr [Hsy Hcase]]]].
       rewrite Hb. cbn [fst].
       destruct (Z.min (Z.of_nat m * B + B) (chain_height c) =? chain_height c) eqn:Es.
       * right. split; [assumption|]. apply Z.eqb_eq in Es. rewrite Es in Hcr. rewrite upto_all in Hcr.
@@ -504,7 +504,7 @@ Proof.
         assert (Hlt : Z.of_nat m * B + B < chain_height c) by lia.
         replace (Z.of_nat (S m) * B) with (Z.of_nat m * B + B) by lia.
         rewrite Z.min_l in Hcase by lia. split; [assumption|lia].
-    + right. rewrite (batch_noop_when_ready _ _ _ _ _ Hr). cbn [fst]. split; assumption.
+    + right. rewrite (batch_noop_when_ready _ _ _ _ _ _ Hr). cbn [fst]. split; assumption.
 Qed.
 
 (* T: a wallet restored on a node whose chain is c, in a wallet database that holds no other credits,
@@ -512,19 +512,19 @@ Qed.
    (cursor = number of batches * B, at most the chain height, credits = those of the blocks up to the
    cursor) or ready with EXACTLY the ledger a wallet with the same addresses has after following
    the chain live from genesis; and after height/B + 1 batches it is ready. *)
-Theorem import_equals_live : forall p B c w own st0 j,
+Theorem import_equals_live : forall fx p B c w own st0 j,
   wf_chain c -> 0 < B -> importing p c w own 0 st0 ->
-  let st := batches p B c st0 w j in
+  let st := batches fx p B c st0 w j in
   (status_of st w = Some WReady ->
      ledger_of_chain p true own c = Ok (x_w st) /\ xreport st w = spec_report p own c w) /\
   (chain_height c < Z.of_nat j * B -> status_of st w = Some WReady) /\
   (status_of st w <> Some WReady -> use_wallet st w = UUnready).
 Proof.
-  intros p B c w own st0 j Hwf HB H0 st.
+  intros fx p B c w own st0 j Hwf HB H0 st.
   assert (Hrange : 0 <= chain_height c) by (destruct H0; lia).
   assert (H00 : importing p c w own (Z.of_nat 0 * B) st0 /\ Z.of_nat 0 * B <= chain_height c).
   { change (Z.of_nat 0 * B) with 0. split; assumption. }
-  pose proof (import_batches p B c w own Hwf HB 0%nat st0 (or_introl H00) j) as H.
+  pose proof (import_batches fx p B c w own Hwf HB 0%nat st0 (or_introl H00) j) as H.
   cbn [Nat.add] in H. fold st in H.
   split; [|split].
   - intros Hr. destruct H as [[Him _]|[_ Hx]].
